@@ -1,25 +1,37 @@
 #!/usr/bin/env python3
-"""tools/keepseed.py <ID> <k> "<summary>" "<needs>"  -- copies a confirmed seeded change into /verif/seeded/<ID>-<k>/"""
-import sys, os, json, shutil
-pid, k, summary, needs = sys.argv[1:5]
-src = "/tmp/seed/%s/OUT/%s" % (pid, k)
-res = json.load(open("/tmp/seed/results/%s_%s.json" % (pid, k)))
+"""tools/keepseed.py <root> <ID> <k> <name> "<summary>" "<needs>" [--note "..."]
+copies a confirmed seeded change (<root>/<ID>/OUT/<k>/) into /verif/seeded/<name>/ with a meta.json built from the result file of
+tools/seedrun.py (/tmp/seed/results/<tag>_<k>.json)."""
+import sys, os, json, shutil, re, argparse
+ap = argparse.ArgumentParser()
+ap.add_argument("root"); ap.add_argument("pid"); ap.add_argument("k"); ap.add_argument("name"); ap.add_argument("summary"); ap.add_argument("needs")
+ap.add_argument("--note", default="")
+ap.add_argument("--verify-from", default=None, help="result file of the original (un-rebased) patch whose verification steps are reused for a rebased patch")
+a = ap.parse_args()
+tag = a.pid if a.root.rstrip("/") == "/tmp/seed" else "R2" + a.pid
+src = os.path.join(a.root, a.pid, "OUT", a.k)
+res = json.load(open("/tmp/seed/results/%s_%s.json" % (tag, a.k)))
 st = res["steps"]
-assert st["tests"] == {"passed": 59, "failed": 0}, st["tests"]
+if a.verify_from:
+    st = dict(json.load(open(a.verify_from))["steps"], apply=st.get("apply"))
+assert st.get("tests") == {"passed": 59, "failed": 0}, st.get("tests")
 assert st["demo_patched"]["rc"] != 0 and st["demo_clean"]["rc"] == 0, (st["demo_patched"]["rc"], st["demo_clean"]["rc"])
-dst = "/verif/seeded/%s-%s" % (pid, k)
+dst = "/verif/seeded/%s" % a.name
 shutil.rmtree(dst, ignore_errors=True)
 os.makedirs(dst)
 shutil.copy(os.path.join(src, "patch.diff"), dst)
 shutil.copytree(os.path.join(src, "demo"), os.path.join(dst, "demo"), ignore=shutil.ignore_patterns("target", "*.log", "Cargo.lock"))
 if os.path.exists(os.path.join(src, "README.md")):
     shutil.copy(os.path.join(src, "README.md"), os.path.join(dst, "AUTHOR_NOTES.md"))
-caught = {p: c["violations"][:3] for p, c in res["checks"].items() if c["rc"] == 1}
+caught = {p: c["violations"] for p, c in res["checks"].items() if c["rc"] == 1}
+rules = sorted({"%s:%s" % (p, m.group(1)) for p, vs in caught.items() for v in vs for m in [re.search(r"rule (\w+) violated", v)] if m})
 meta = {
-    "breaks_property": pid,
-    "summary": summary,
-    "needs_to_manifest": needs,
-    "origin": "written by an independent sub-agent that saw only the property text and a scratch worktree of /repo",
+    "breaks_property": a.pid,
+    "summary": a.summary,
+    "needs_to_manifest": a.needs,
+    "origin": "written by an independent sub-agent that saw only the property text and a scratch worktree of /repo (round %d)" % (1 if tag == a.pid else 2),
+    "applies_to_repo_commit": res.get("repo_commit", ""),
+    "checks_from_verif_commit": res.get("verif_commit", ""),
     "confirmed_by": {
         "commands": ["git apply patch.diff (scratch worktree at /repo's HEAD)", "cargo build --workspace --features cli,lsp --offline",
                      "cargo test --workspace --no-fail-fast --offline", "demo/run.sh <worktree> (patched)", "git checkout -- . ; demo/run.sh <worktree> (clean)"],
@@ -28,6 +40,9 @@ meta = {
     },
     "checks_run_against_it": {p: {"exit": c["rc"], "violations": c["violations"][:3]} for p, c in res["checks"].items()},
     "detected_by": sorted(caught),
+    "detected_by_rules": ", ".join(rules),
 }
+if a.note:
+    meta["note"] = a.note
 json.dump(meta, open(os.path.join(dst, "meta.json"), "w"), indent=1)
-print(dst, "detected_by", sorted(caught))
+print(dst, "detected_by", sorted(caught), rules)
